@@ -70,3 +70,19 @@ Example C04_release_example :
   fit_releases (from_memmap 2097152 256 128 1000128) 20000 0 =
   [(1000000, 2097152, 8192); (3097152, 2097152, 16384)].
 Proof. exact release_example. Qed.
+
+(* any number of consecutive fit calls is one fit call on the concatenation: every chunk but
+   the last must be free of malformed rows (a malformed row ends the call it is in) *)
+From BB Require Import Proofs.Small2.
+Theorem C04_many_chunks : forall fexp cfg0 chunks tl,
+  chunks <> [] -> Forall (fun c => c <> []) chunks ->
+  Forall (Forall (fun r => r <> None)) (removelast chunks) ->
+  run fexp cfg0 (map (fun c => OFit c None) chunks ++ tl) =
+  run fexp cfg0 (OFit (concat chunks) None :: tl).
+Proof. exact run_many_chunks_butlast. Qed.
+(* ... and that side condition cannot be dropped *)
+Theorem C04_many_chunks_side_condition_needed : forall fexp cfg0,
+  exists xs ys : list (option fpv), xs <> [] /\ ys <> [] /\
+    nfit (run fexp cfg0 [OFit xs None; OFit ys None]) = 1 /\
+    nfit (run fexp cfg0 [OFit (xs ++ ys) None]) = 0.
+Proof. exact chunks_need_wf. Qed.
